@@ -194,6 +194,9 @@ pub struct CliCase {
     /// later label lies across that byte offset: (which multi-byte character, offset inside it, which multiple of 64 KiB)
     #[serde(default)]
     pub pad: Option<(u8, u8, u8)>,
+    /// `--export <fresh file>` is given as well: what is printed must not change
+    #[serde(default)]
+    pub export: bool,
 }
 
 /// insert a run of white space after the first fact (see `CliCase::pad`)
@@ -383,14 +386,41 @@ fn c15_check(c: &CliCase, st: &mut Stats) -> CheckResult {
             6 => args.push("ENV:RUST_LOG=trace".into()),
             _ => {}
         }
+        let export_file = if c.export { Some(scratch_file("export.json")) } else { None };
+        if let Some(f) = &export_file {
+            args.push("--export".into());
+            args.push(f.display().to_string());
+        }
         let cmdline = format!("adf-bdd {}", args[1..].join(" ")).replace("ENV:", "env ");
-        let run = match run_cli(&args) {
+        let run = run_cli(&args);
+        if let Some(f) = &export_file {
+            let _ = std::fs::remove_file(f);
+        }
+        let run = match run {
             Ok(r) => r,
             Err(e) => {
                 result = Err(e);
                 break;
             }
         };
+        if c.sort == Sort::Alphanum && c.adf.labels.iter().any(|l| has_long_number(l)) {
+            // K7 probe: exactly the known signature or correct behaviour
+            if run.code == Some(101) && run.stderr.contains("attempt to multiply with overflow") && run.stderr.contains("lexical-sort") && run.stdout.is_empty() {
+                match known_or_fail(
+                    "K7-alphanum-20-digit-number",
+                    format!("{cmdline}: well-formed input with a label containing a number of 20 or more digits makes --an panic: {}", first_line(&run.stderr)),
+                ) {
+                    Ok(o) => {
+                        outcome = o;
+                        continue;
+                    }
+                    Err(e) => {
+                        result = Err(e);
+                        break;
+                    }
+                }
+            }
+        }
         if hostile && mode != "naive" {
             // K1 probe: exactly the known signature or correct behaviour
             if run.code == Some(101) && run.stderr.contains("is invalid. Cannot use") && run.stdout.is_empty() {
@@ -676,6 +706,140 @@ pub fn padded_cli_part(name: &'static str, cases: u32) -> Box<dyn DynPart> {
     )
 }
 
+/// wide input files through the CLI (58..135 statements: cyclic core, long chains, parity over all statements): grounded
+/// in all three modes, the nogood-learner flags with every heuristic in hybrid mode (and --stmng in naive mode); one flag
+/// per process run, so that every printed line is a model of that flag
+#[derive(Clone, Debug, Serialize, Deserialize)]
+pub struct WideCli {
+    pub sem: crate::props::sem::SemCase,
+    pub heu: u8,
+}
+
+fn wide_cli_check(c: &WideCli, st: &mut Stats) -> CheckResult {
+    let text = c.sem.adf.text();
+    let labels = &c.sem.adf.labels;
+    let ex = crate::props::sem::expect_of(&c.sem.adf.acs);
+    let path = write_input(&text)?;
+    let heu = HEUS[c.heu as usize % HEUS.len()];
+    let mut res: Result<(), String> = Ok(());
+    let runs: Vec<(&str, Vec<&str>, Vec<Interp>)> = vec![
+        ("naive", vec!["--grd"], vec![ex.grd.clone()]),
+        ("biodivine", vec!["--grd"], vec![ex.grd.clone()]),
+        ("hybrid", vec!["--grd"], vec![ex.grd.clone()]),
+        ("hybrid", vec!["--stmng", "--heu", heu], ex.stable.clone()),
+        ("hybrid", vec!["--twoval", "--heu", heu], ex.two.clone()),
+        ("naive", vec!["--stmng", "--heu", heu], ex.stable.clone()),
+    ];
+    for (mode, flags, want) in runs {
+        let mut args: Vec<String> = vec![path.display().to_string(), "--lib".into(), mode.into()];
+        args.extend(sort_args(c.sem.sort));
+        args.extend(flags.iter().map(|f| f.to_string()));
+        let cmdline = format!("adf-bdd {}", args[1..].join(" "));
+        let run = match run_cli(&args) {
+            Ok(r) => r,
+            Err(e) => {
+                res = Err(e);
+                break;
+            }
+        };
+        if run.code == Some(-999) {
+            res = Err(format!("INCONCLUSIVE: {cmdline} was silent for 60 s on {} statements", labels.len()));
+            break;
+        }
+        if run.code != Some(0) {
+            res = Err(format!("{cmdline}: exit status {:?} on well-formed input with {} statements; stderr: {}", run.code, labels.len(), first_line(&run.stderr)));
+            break;
+        }
+        let mut got = Vec::new();
+        for line in run.stdout.lines().filter(|l| !l.is_empty()) {
+            match line_to_logical(line, labels, c.sem.sort) {
+                Ok(i) => got.push(i),
+                Err(e) => {
+                    res = Err(format!("{cmdline}: {e}"));
+                    break;
+                }
+            }
+        }
+        if res.is_err() {
+            break;
+        }
+        if !multiset_eq(&got, &want) {
+            res = Err(format!("{cmdline}: printed {} but the definition gives {} ({} statements)", oracle::show_set(&got), oracle::show_set(&want), labels.len()));
+            break;
+        }
+    }
+    let _ = std::fs::remove_file(&path);
+    res?;
+    st.label(&format!("heu={heu}"));
+    st.nontrivial(stable_hash(&(text, c.heu)), || json!({"statements": labels.len(), "heuristic": heu, "stable_models": ex.stable.len(), "two_valued_models": ex.two.len()}));
+    Ok(Outcome::Ok)
+}
+
+pub fn wide_cli_part(name: &'static str, cases: u32) -> Box<dyn DynPart> {
+    Part::with_shrink(
+        name,
+        cases,
+        20,
+        || (prop_oneof![crate::props::sem::sem_case_wide_chains(58, 90), crate::props::sem::sem_case_wide_core(60, 135, 4)], 0u8..4).prop_map(|(sem, heu)| WideCli { sem, heu }).boxed(),
+        wide_cli_check,
+    )
+}
+
+/// a run of 20 or more decimal digits (a number that does not fit 64 bits)
+pub fn has_long_number(l: &str) -> bool {
+    let mut run = 0;
+    for ch in l.chars() {
+        if ch.is_ascii_digit() {
+            run += 1;
+            if run >= 20 {
+                return true;
+            }
+        } else {
+            run = 0;
+        }
+    }
+    false
+}
+
+/// labels that are or contain numbers of 18..30 digits (numeric comparison beyond 64 bits), all sorting flags
+pub fn bignum_cli_part(name: &'static str, cases: u32) -> Box<dyn DynPart> {
+    Part::with_shrink(
+        name,
+        cases,
+        60,
+        || {
+            (cli_case(), proptest::sample::subsequence(vec![Flag::Grd, Flag::Com, Flag::Stm], 1..=3), proptest::collection::vec(("[1-9][0-9]{17,29}", 0u8..4), 6), prop_oneof![1 => Just(Sort::None), 1 => Just(Sort::Lexi), 3 => Just(Sort::Alphanum)])
+                .prop_map(|(mut c, flags, nums, sort)| {
+                    c.flags = flags;
+                    c.heu = None;
+                    c.counter = false;
+                    c.sort = sort;
+                    for (i, l) in c.adf.labels.iter_mut().enumerate() {
+                        let (num, how) = &nums[i % nums.len()];
+                        let cand = match how {
+                            0 => num.clone(),
+                            1 => format!("a{num}"),
+                            2 => format!("{num}b{i}"),
+                            _ => l.clone(),
+                        };
+                        *l = cand;
+                    }
+                    // labels must stay pairwise different
+                    let mut seen = std::collections::HashSet::new();
+                    for (i, l) in c.adf.labels.iter_mut().enumerate() {
+                        if !seen.insert(l.clone()) {
+                            l.push_str(&format!("x{i}"));
+                            seen.insert(l.clone());
+                        }
+                    }
+                    c
+                })
+                .boxed()
+        },
+        c15_check,
+    )
+}
+
 /// input files with one condition nested hundreds of levels deep (all connectives), through the CLI in all three modes
 #[derive(Clone, Debug, Serialize, Deserialize, Hash)]
 pub struct DeepCli {
@@ -711,7 +875,7 @@ fn deep_cli_check(c: &DeepCli, st: &mut Stats) -> CheckResult {
     if c.flags & 2 == 2 {
         flags.push(Flag::Stm);
     }
-    let case = CliCase { adf, sort: Sort::None, flags, heu: None, counter: false, verbosity: 0, pad: None };
+    let case = CliCase { adf, sort: Sort::None, flags, heu: None, counter: false, verbosity: 0, pad: None, export: false };
     let r = c15_check(&case, st);
     // the nested structure itself must not be dropped recursively on a small stack later on: fine at these depths
     st.label(&format!("nesting>={}", (c.depth / 100) * 100));
@@ -737,7 +901,11 @@ fn cli_case() -> BoxedStrategy<CliCase> {
         proptest::bool::weighted(0.15),
         0u8..8,
     )
-        .prop_map(|(adf, sort, flags, heu, counter, verbosity)| CliCase { adf, sort, flags, heu, counter, verbosity, pad: None })
+        .prop_map(|(adf, sort, flags, heu, counter, verbosity)| {
+            // every sixth case (by its verbosity / flag draw) also exports the state into a fresh file
+            let export = (verbosity as usize + flags.len()) % 6 == 0;
+            CliCase { adf, sort, flags, heu, counter, verbosity, pad: None, export }
+        })
         .boxed()
 }
 
@@ -765,6 +933,10 @@ pub fn c15(tier: Tier) -> PropSpec {
             padded_cli_part("runs-padded", tier.pick(120, 1200)),
             // one condition nested 500..900 levels deep
             deep_cli_part("runs-deep", tier.pick(60, 600)),
+            // labels with numbers of 18..30 digits
+            bignum_cli_part("runs-bignum", tier.pick(150, 1500)),
+            // 58..135 statements
+            wide_cli_part("runs-wide", tier.pick(16, 600)),
         ],
     }
 }
